@@ -275,6 +275,7 @@ func c18scan(env sched.Env) *sched.Report {
 		sched.Progress(cs)
 		sig, detail := c18run(cs)
 		rep.Execs++
+		sched.Progress(nil)
 		rep.Transitions += int64(len(cs.Chains))
 		if sig != "" {
 			rep.Outcomes["violation: "+sig]++
@@ -346,6 +347,7 @@ func c18scan(env sched.Env) *sched.Report {
 			}
 			for _, nc := range cursors {
 				rep.Execs++
+				sched.Progress(nil)
 				gi, gc := r.parseCursor(r.genCursor(idx, nc))
 				if gi != idx || gc != nc {
 					sig := "cursor-encoding-lossy"
